@@ -16,6 +16,8 @@ CHECKS = {
          "Tied to the real Accumulator by running random histories (catch_unwind, drop during unwinding) against model and specification inside Coq.",
          "Coq proof (refinement to abstract spec by induction over histories) + per-run differential correspondence"),
 }
+RECV = ("Coq model Run/Recv.v of the parsers the derives generate (impl_of : ty -> implementer, by structural recursion over a universe of field types: library targets, wrappers, derived structs / newtypes / "
+        "unit structs / enums, any nesting): declarations, core loop, flatten hand-off, presence checks, the single early return, defaults, initialisers, post-transforms. ")
 CHECKS["C11"] = ("Coq theorems: std's checked digit loop (as used by both the quoted and unquoted path) accepts exactly the signed decimal numerals whose mathematical value is in the target's range "
          "(non-zero for NonZero) and returns that value, for all 24 targets and digit strings of any length; unquoted/quoted exactness, quoted = unquoted for plain decimals, no input yields an "
          "out-of-range value, every rejection is a spanned error and never a panic; bool/char/String tables; floats relative to the std oracle. Tied to core/src/from_meta.rs by running "
@@ -58,8 +60,23 @@ CHECKS["C10"] = ("Coq model Options/Resolve.v of the order-sensitive derive-time
          "theorem: a rejection is never empty; the correspondence check compares model and code on accept/reject AND on every diagnostic's position and message, in order, and evaluates the order-free "
          "specification on the code's verdict - exhaustively for all ordered singles/pairs/(triples) of field options x every attribute split, all ordered pairs of container options, variant option subsets, body rules, six derives.",
          "Coq model + order-free executable specification evaluated on the implementation's verdict; per-run differential correspondence (exhaustive over option pairs/triples and attribute splits)")
-RECV = ("Coq model Run/Recv.v of the parsers the derives generate (impl_of : ty -> implementer, by structural recursion over a universe of field types: library targets, wrappers, derived structs / newtypes / "
-        "unit structs / enums, any nesting): declarations, core loop, flatten hand-off, presence checks, the single early return, defaults, initialisers, post-transforms. ")
+CHECKS["C03"] = ("Coq theorems: with_span only fills an empty span (first writer wins), locations and spans are independent, flatten()/into_vec yield the leaves each with its own span or else its nearest "
+         "spanned enclosing bundle's (plain tree traversal as specification), one compiler diagnostic per leaf at that span (call site + path in the message only for a leaf with no span at all), a spanned "
+         "root spans every leaf; for EVERY FromMeta implementer the default methods return spanned errors and never replace an inner span; for every derived struct level each recorded error is spanned "
+         "(item span unless the field's conversion attached a more specific one). Tied to the code by (A) random error-builder histories with spans compared on value / flatten / syn::Error / write_errors, "
+         "(B) compiled corpus receivers on faulty inputs parsed from source text (every leaf spanned, inside the input, equal to a node's own range, inside a top-level item named by its location) with the model "
+         "compared span for span, (C) scalar targets (rejections spanned inside the value).",
+         "Coq proof (induction over error trees; quantified over all implementers / field lists) + per-run differential correspondence with real line/column spans")
+CHECKS["C09"] = (RECV + "Theorems for ANY enum (any variant list, field types, user callables): list arity for every length, one item selects the FIRST non-skipped variant with that effective name and runs its arm, "
+         "the string form reaches unit / absentable-newtype variants only, a produced variant is never skipped (list and string forms), word / absent succeed only if declared, every other value kind is an error. "
+         "Tied to the code by all 35 enum receivers of the compiled corpus x every form x every spelling of every variant (identifier, all case rules, skipped ones, unknown names) with Spec/C01.v evaluated on the real output.",
+         "Coq proof (induction over variant lists, for any implementers) + specification evaluated on the implementation's output; per-run differential correspondence against compiled receivers")
+CHECKS["C17"] = ("Coq theorems for ANY similarity function: did_you_mean equals the argmax specification (first candidate of maximal similarity among those above the threshold; None iff none exceeds it), feature off = no "
+         "suggestion, add_alts never replaces a better or equal suggestion nor removes one, sibling alternates leave every located error (to any depth) unchanged and only touch unknown-field leaves whose whole path is empty; "
+         "at any struct level the candidates are exactly the addressable names, so a suggestion is never skipped / flatten / the rejected name and would be accepted; likewise for enums over non-skipped variants. "
+         "Tied to the code by corpus receivers x unknown names at edit distance 0-3 from valid / skipped / enclosing names at every depth: each unknown-field leaf is resolved to its position through its location path and "
+         "must carry exactly the argmax suggestion for the names valid there (strsim scores per case); repeated with the suggestions feature off.",
+         "Coq proof (loop = argmax, induction over candidate lists and error trees, for any similarity function) + per-run differential correspondence incl. feature-off build")
 CHECKS["C01"] = (RECV + "The property is the executable per-FIELD specification Spec/C01.v `expected` (comprehensions over the input: no pass, no seen flags, no accumulator), evaluated in Coq on the value the real derived "
          "code returned for 150 compiled corpus receivers x receiver-directed mistake-free inputs; model and code are compared on every case. Theorems so far: initial state; the loop-invariant theorems are in progress (see DESIGN.md).",
          "Coq model + per-field executable specification evaluated on the implementation's output; per-run differential correspondence against compiled receivers")
